@@ -15,6 +15,7 @@ func init() {
 			"LP-OFFLOAD provenance: a pipeline label filter is never offloaded as selector matcher",
 			"CH-MAP GetFloat kinds; LP-BUILD: a stage is not wrapped between its builder and the pipeline",
 			"label and line regexps with the same text stay different matchers; the engine evaluates every written filter stage",
+			"PV-PURE LabelSet read accessors do not write the label map; groupEntries keeps every entry (no de-duplication), deterministic",
 		},
 		NotDecided: []string{"strings.Contains(s, \"\") being true (library semantics)", "regexp engine semantics"},
 		Rules: func(r *Run) {
@@ -36,6 +37,9 @@ func init() {
 			ruleGetFloatKinds(r)
 			ruleLabelRegexAnchoring(r) // a label regexp and a line regexp with the same text stay two different matchers
 			ruleLPOffload(r)           // every written filter stage is evaluated: the engine builds its pipeline from the whole stage list
+			ruleLabelSetReadersPure(r)
+			ruleGroupEntries(r)
+			ruleMO(r, 10, "LabelSet", "groupEntries", "Engine).Eval")
 		},
 	})
 }
